@@ -26,6 +26,11 @@ func runC12(c *Ctx) {
 	c18Flate(c)
 	// a compressed frame must stay what it was: its payload may not live in recycled memory
 	pooledEscapeRules(c, "C12")
+	// the helpers mark frames through SetBit / UnsetBit
+	if c.headerLayoutOK("C13.anchor") {
+		c13RsvLayout(c)
+		c13Bits(c)
+	}
 }
 
 func constBytes(v fold.Val) (string, bool) {
